@@ -610,8 +610,8 @@ int fcntl(int fd, int cmd, ...) {
   va_end(args);
 
   if (!thread_locked) {
-    if (cmd == F_SETFL && (val == O_NONBLOCK || val == O_NDELAY)) {
-      assert(fd < max_fd);
+    if (cmd == F_SETFL && (val == O_NONBLOCK || val == O_NDELAY) && fd_info &&
+        fd >= 0 && fd < max_fd) {
       atomic_fetch_and(&fd_info[fd].flags_, ~IO_FLAG_BLOCKING);
       assert(!(fd_info[fd].flags_ & IO_FLAG_BLOCKING));
       return 0;
@@ -635,12 +635,14 @@ int ioctl(IOCTLPARAMS) {
   void* val = va_arg(args, void*);
   va_end(args);
 
-  if (!thread_locked && request == FIONBIO) {
+  // descriptors outside the table (or before fiber_io_init) go to the real
+  // ioctl, which reports EBADF for invalid ones
+  if (!thread_locked && request == FIONBIO && fd_info && d >= 0 &&
+      d < max_fd) {
     if (!val) {
       errno = EINVAL;
       return -1;
     }
-    assert(d < max_fd);
     if (*(int*)val) {
       atomic_fetch_and(&fd_info[d].flags_, ~IO_FLAG_BLOCKING);
       assert(!(fd_info[d].flags_ & IO_FLAG_BLOCKING));
